@@ -165,7 +165,8 @@ class C15:
                             'k_u': frng.randrange(1 << 30), 'payload': frng.choice(['SimInterrupt', 'MemoryError', 'MemoryError']),
                             'phase': frng.choice(['copy', 'any'])})
         return {'property': self.PROPERTY, 'config': 'fault_injecting' if faulty else 'fault_free', 'class': 'core' if core else 'extended',
-                'docs': docs, 'ops': ops, 'warnings': 'error' if erng.random() < 0.1 else 'default'}
+                'docs': docs, 'ops': ops, 'warnings': 'error' if erng.random() < 0.1 else 'default',
+                'logging': 'DEBUG' if erng.random() < 0.08 else 'default'}
 
     def summarize(self, plan):
         return {'class': plan['class'], 'config': plan['config'], 'texts': [docgen.Doc.from_json(d).render() for d in plan['docs']], 'ops': plan['ops']}
@@ -176,7 +177,9 @@ class C15:
         with warnings.catch_warnings():
             # interpreter environment knob: 10% of the runs treat every warning as an error (python -W error)
             warnings.simplefilter('error' if plan.get('warnings') == 'error' else 'ignore')
-            return self._execute(plan)
+            from simkit.envknobs import debug_logging
+            with debug_logging(plan.get('logging') == 'DEBUG'):     # the application has switched logging to DEBUG
+                return self._execute(plan)
 
     def _execute(self, plan):
         import kernpy as kp
